@@ -768,3 +768,43 @@ func mustCallSites(fn *ssa.Function, match func(string) bool, busy map[*ssa.Func
 	}
 	return out
 }
+
+// GatePassEdges: the passing edges of guard g in fn (direct tests and tests of helpers whose
+// success implies the guard), and the number of guard sites.
+func GatePassEdges(fn *ssa.Function, g Guard) (pass map[Edge]bool, sites int) {
+	pass = map[Edge]bool{}
+	for _, i := range Ifs(fn) {
+		passOnTrue, ok := g.Match(i)
+		if !ok {
+			passOnTrue, ok = helperSite(i, g)
+		}
+		if !ok {
+			continue
+		}
+		sites++
+		pass[IfEdge(i.Block(), passOnTrue)] = true
+	}
+	return
+}
+
+// ReachableWithin: is `to` reachable from block `from` (edge-sensitively) without taking any
+// edge of `removed` and without re-entering `from` through a back edge?
+func ReachableWithin(from *ssa.BasicBlock, to ssa.Instruction, removed map[Edge]bool) bool {
+	rm := map[Edge]bool{}
+	for e := range removed {
+		rm[e] = true
+	}
+	for _, p := range from.Preds {
+		if from.Dominates(p) {
+			rm[Edge{p, from}] = true
+		}
+	}
+	first := true
+	return searchEdges(from, rm, func(b, pred *ssa.BasicBlock) (bool, bool) {
+		if first {
+			first = false
+			return b == to.Block() && false, false
+		}
+		return b == to.Block(), false
+	})
+}
